@@ -124,7 +124,7 @@ func eligible(path string, cfg proj.Config) bool {
 			return false
 		}
 	}
-	if cfg.SkipNested && (dir == "nested" || strings.HasPrefix(dir, "nested/")) {
+	if cfg.SkipNested && (dir == "nested" || strings.HasPrefix(dir, "nested/") || dir == "plugin" || strings.HasPrefix(dir, "plugin/")) {
 		return false
 	}
 	if strings.HasPrefix(path, cfg.PkgPath+"/") {
@@ -143,6 +143,7 @@ func (c *e2eCtx) trackAndJudge(s *scenario, decoys bool, r *rand.Rand) {
 		c.count("base:INIT")
 	}
 	wl := filepath.Join(s.dir, ".git", "verif-writelog")
+	pm := c.predictDiff(s)
 	run := proj.RunGoat(c.goat, s.dir, []string{"GOAT_VERIF_WRITELOG=" + wl}, "track")
 	rp := func(extra map[string]any) map[string]any {
 		e := map[string]any{"config_desc": s.desc, "stderr": tail(run.Stderr, 1500), "exit": run.Exit}
@@ -191,6 +192,8 @@ func (c *e2eCtx) trackAndJudge(s *scenario, decoys bool, r *rand.Rand) {
 	if len(in.BadBlocks) > 0 {
 		c.violate("C02", "tracking call not enclosed in a well-formed marker block at "+strings.Join(in.BadBlocks, ", "), rp(nil))
 	}
+	// C03 / C09: the blocks are where the model puts them for the real diff
+	c.judgeMarks(s, pm, after, rp)
 	// C05
 	c.judgeC05(s, in, rp)
 	// C13: which paths differ
